@@ -50,6 +50,7 @@ type discoverCtx struct {
 	startCounter int
 	objs         map[string][]string // key -> loop-invariant objects written
 	unknown      map[string]bool     // key -> written at an object that is neither loop-invariant nor fresh
+	deep         map[string]bool     // callee-internal events (from may_emit declarations)
 }
 
 type topCtx struct {
@@ -182,9 +183,31 @@ func (e *Exec) loadGlobal(st *State, g *ssa.Global, view *HeapView) Value {
 		v.T = t
 		return v
 	}
-	if id, ok := e.eng.errGlobals[g]; ok {
-		// immutable error constant: a distinct non-nil error value
-		return Value{T: t, L: []Term{IntLit(int64(e.eng.typeID(errorStringType()))), IntLit(int64(-id))}}
+	if _, ok := e.eng.errGlobals[g]; ok {
+		// immutable error constant: a distinct non-nil error object that exists from the start
+		var all []Term
+		var mine Term
+		var names []string
+		for og := range e.eng.errGlobals {
+			names = append(names, og.Pkg.Pkg.Name()+"."+og.Name())
+		}
+		sort.Strings(names)
+		for _, n := range names {
+			c := e.declare("errobj."+smtName(n), SInt)
+			all = append(all, c)
+			if n == g.Pkg.Pkg.Name()+"."+g.Name() {
+				mine = c
+			}
+		}
+		top := st.allocTop
+		if e.top != nil {
+			top = e.top.entryTop
+		}
+		st.assert(And(Lt(Zero, mine), Le(mine, top)))
+		if len(all) > 1 {
+			st.assert(App(SBool, "distinct", all...))
+		}
+		return Value{T: t, L: []Term{IntLit(int64(e.eng.typeID(errorStringType()))), mine}}
 	}
 	if !isRepoPkg(g.Pkg.Pkg) && isErrorType(t) {
 		// exported error values of libraries (context.Canceled, net.ErrClosed, ...): constants
@@ -698,6 +721,7 @@ func (e *Exec) enter(st *State, to *ssa.BasicBlock) bool {
 			return false
 		}
 		e.checkInvariants(st, fr, li, phis, "inv-pres")
+		e.checkGlobalInv(st, to.Instrs[0].Pos())
 		if le := fr.loops[to.Index]; le != nil && le.locks != lockSig(st) {
 			e.oblige(st, "lock", fmt.Sprintf("loop%d-lockset", li.ordinal), False, to.Instrs[0].Pos(), nil, "lock set differs between loop iterations")
 		}
@@ -707,6 +731,11 @@ func (e *Exec) enter(st *State, to *ssa.BasicBlock) bool {
 	e.checkInvariants(st, fr, li, phis, "inv-init")
 	mod := e.discoverLoop(st, li, phis)
 	e.havocLoop(st, fr, li, phis, mod)
+	if len(mod.keys) > 0 || mod.all {
+		// global invariants are implicit loop invariants (checked at entry by
+		// the callers' obligations and at every back edge)
+		e.assumeGlobalInv(st)
+	}
 	e.assumeInvariants(st, fr, li, phis)
 	fr.loops[to.Index] = &loopEntry{locks: lockSig(st), nTrace: len(st.trace)}
 	return true
@@ -719,6 +748,7 @@ type loopMod struct {
 	timeAdv bool
 	objs    map[string][]string
 	unknown map[string]bool
+	deep    []string
 }
 
 func (e *Exec) iterOfLoop(fr *Frame, li *loopInfo) *ssa.Range {
@@ -788,6 +818,9 @@ func (e *Exec) havocLoop(st *State, fr *Frame, li *loopInfo, phis []*ssa.Phi, mo
 	if len(mod.events) > 0 {
 		st.trace = append(st.trace, Event{MayLoop: mod.events})
 	}
+	if len(mod.deep) > 0 {
+		st.trace = append(st.trace, Event{MayLoop: mod.deep, Deep: true})
+	}
 }
 
 // discoverLoop symbolically runs the loop body once (no obligations) to find
@@ -799,6 +832,7 @@ func (e *Exec) discoverLoop(st *State, li *loopInfo, phis []*ssa.Phi) *loopMod {
 	mod := &loopMod{}
 	keys := map[string]bool{}
 	events := map[string]bool{}
+	deepEv := map[string]bool{}
 	saved := e.disc
 	savedBudget := e.budget
 	for round := 0; round < 4; round++ {
@@ -806,7 +840,7 @@ func (e *Exec) discoverLoop(st *State, li *loopInfo, phis []*ssa.Phi) *loopMod {
 		fr := c.top()
 		e.havocLoop(c, fr, li, phis, &loopMod{keys: sortedKeys(keys), all: mod.all, timeAdv: mod.timeAdv})
 		d := &discoverCtx{head: li.head.Index, depth: len(c.frames), start: c.heapSnapshot(), keys: map[string]bool{}, events: map[string]bool{}, loop: li, startNow: c.now,
-			startSeq: c.seq, startCounter: e.counter, objs: map[string][]string{}, unknown: map[string]bool{}}
+			startSeq: c.seq, startCounter: e.counter, objs: map[string][]string{}, unknown: map[string]bool{}, deep: map[string]bool{}}
 		e.disc = d
 		d.startTrace = len(c.trace)
 		d.startEpoch = c.epoch
@@ -822,6 +856,12 @@ func (e *Exec) discoverLoop(st *State, li *loopInfo, phis []*ssa.Phi) *loopMod {
 		for k := range d.events {
 			if !events[k] {
 				events[k] = true
+				grew = true
+			}
+		}
+		for k := range d.deep {
+			if !deepEv[k] {
+				deepEv[k] = true
 				grew = true
 			}
 		}
@@ -841,6 +881,7 @@ func (e *Exec) discoverLoop(st *State, li *loopInfo, phis []*ssa.Phi) *loopMod {
 	e.budget = savedBudget - (savedBudget-e.budget)/1
 	mod.keys = sortedKeys(keys)
 	mod.events = sortedKeys(events)
+	mod.deep = sortedKeys(deepEv)
 	return mod
 }
 
@@ -918,7 +959,11 @@ func (e *Exec) recordDiscovery(st *State) {
 	for _, ev := range st.trace[d.startTrace:] {
 		if ev.MayLoop != nil {
 			for _, n := range ev.MayLoop {
-				d.events[n] = true
+				if ev.Deep {
+					d.deep[n] = true
+				} else {
+					d.events[n] = true
+				}
 			}
 		} else {
 			d.events[ev.Name] = true
@@ -934,6 +979,9 @@ func (e *Exec) loopEnv(st *State, fr *Frame, li *loopInfo, phis []*ssa.Phi) *Spe
 	for _, ph := range phis {
 		if ph.Comment == "rangeindex" {
 			env.vars["idx"] = intV(Add(fr.env[ph].L[0], One))
+		} else if ph.Comment != "" {
+			// loop-carried source variable
+			env.vars[ph.Comment] = fr.env[ph]
 		}
 	}
 	// coll: operand of the len() whose result bounds the range index
@@ -1148,6 +1196,21 @@ func (e *Exec) classifyWrites(st *State, d *discoverCtx, key, cur, start string)
 		if seq, fresh := st.freshSeq[idx]; fresh && seq > d.startSeq {
 			// allocated inside the loop
 		} else {
+			// names defined inside the loop body are expanded to what they stand for
+			for depth := 0; depth < 6; depth++ {
+				b, ok := e.defBody[idx]
+				if !ok {
+					break
+				}
+				n := 0
+				if m := bangNum.FindString(idx); m != "" {
+					fmt.Sscanf(m[1:], "%d", &n)
+				}
+				if n <= d.startCounter {
+					break
+				}
+				idx = b
+			}
 			inv := true
 			for _, m := range bangNum.FindAllString(idx, -1) {
 				n := 0
